@@ -76,6 +76,38 @@ def _library_modules():
     return [m for name, m in list(sys.modules.items()) if (name == 'csep' or name.startswith('csep.')) and m is not None]
 
 
+def _snap_nested(val, depth=0):
+    """('dict'|'list'|'set', the object, recursively snapped content) for builtin containers, else ('leaf', val)."""
+    if depth < 4 and type(val) is dict:
+        return ('dict', val, {k: _snap_nested(v, depth + 1) for k, v in val.items()})
+    if depth < 4 and type(val) is list:
+        return ('list', val, [_snap_nested(v, depth + 1) for v in val])
+    if depth < 4 and type(val) is set:
+        return ('set', val, set(val))
+    return ('leaf', val, None)
+
+
+def _restore_nested(snap):
+    kind, obj, content = snap
+    if kind == 'dict':
+        for k in list(obj.keys()):
+            if k not in content:
+                del obj[k]
+        for k, sub in content.items():
+            if k not in obj or obj[k] is not sub[1]:
+                obj[k] = sub[1]
+            _restore_nested(sub)
+    elif kind == 'list':
+        if len(obj) != len(content) or any(a is not sub[1] for a, sub in zip(obj, content)):
+            obj[:] = [sub[1] for sub in content]
+        for sub in content:
+            _restore_nested(sub)
+    elif kind == 'set':
+        if obj != content:
+            obj.clear()
+            obj.update(content)
+
+
 def _snapshot_library_state():
     """Shallow copies of every module-level dict/list/set of the library, taken once per process before any case runs."""
     global _PRISTINE
@@ -85,9 +117,27 @@ def _snapshot_library_state():
             if attr.startswith('__'):
                 continue
             if type(val) in (dict, list, set):
-                snap[(m.__name__, attr)] = (val, val.copy())
+                snap[(m.__name__, attr)] = (val, _snap_nested(val))
             elif val is None or isinstance(val, (int, float, str, bool, tuple, bytes)):
                 snap[(m.__name__, attr)] = ('plain', val)
+    # mutable default arguments of the library's functions and methods (a list/dict/set default is shared between calls)
+    defaults = []
+    import types
+    for m in _library_modules():
+        fns = []
+        for val in list(vars(m).values()):
+            if isinstance(val, types.FunctionType) and val.__module__ == m.__name__:
+                fns.append(val)
+            elif isinstance(val, type) and val.__module__ == m.__name__:
+                for v2 in list(vars(val).values()):
+                    f = getattr(v2, '__func__', v2)
+                    if isinstance(f, types.FunctionType):
+                        fns.append(f)
+        for f in fns:
+            for d in list(f.__defaults__ or ()) + list((f.__kwdefaults__ or {}).values()):
+                if type(d) in (dict, list, set):
+                    defaults.append((d, _snap_nested(d)))
+    snap['__defaults__'] = defaults
     _PRISTINE = snap
 
 
@@ -98,6 +148,8 @@ def _reset_library_state():
         _snapshot_library_state()
         return
     import types
+    for d, snap_ in _PRISTINE.get('__defaults__', []):
+        _restore_nested(snap_)
     for m in _library_modules():
         for attr, val in list(vars(m).items()):
             key0 = (m.__name__, attr)
@@ -118,16 +170,7 @@ def _reset_library_state():
             elif type(val) in (dict, list, set) and not attr.startswith('__'):
                 key = (m.__name__, attr)
                 if key in _PRISTINE and _PRISTINE[key][0] is val:
-                    orig = _PRISTINE[key][1]
-                    if val != orig:
-                        val.clear()
-                        (val.update if isinstance(val, (dict, set)) else val.extend)(orig)
-                elif key not in _PRISTINE:
-                    # a container that did not exist (or was rebound) when the process started: empty it
-                    try:
-                        val.clear()
-                    except Exception:
-                        pass
+                    _restore_nested(_PRISTINE[key][1])
 
 
 def _init_worker(pid):
